@@ -14,18 +14,27 @@
 //!   encrypted index word, all entries decrypted, then `…_statefull_rev`, all entries decrypted: `ok fwd=<…> rev=<…>`.
 //! * `retr1 be= size= rsh= idxword= data=<w,…>`: `GLWEBlindRetriever::alloc(size)` + `retrieve` (offset = rsh): `ok <w>`.
 //! * `sel be= bits= rsh= idxword= keys=<k,…> vals=<w,…>`: `glwe_blind_selection` on the sparse table: `ok <w>`.
+//! * `hist be= size= rsh= idxword= streams=<w,…|w,…|-> modes=<0|1,…>`: ONE `GLWEBlindRetriever::alloc(size)`, the streams in order
+//!   (mode 1: `retrieve`; mode 0: `add` per element then `flush`): `ok <v1>,<v2>,…`.
+//! * `brot be= kind=glwe|glwe_assign|ggsw|ggsw_assign|scalar sign= rsh= mask= lsh= idxword= want=<rotation>`:
+//!   `glwe_blind_rotation(_assign)` on a GLWE of a fixed small-coefficient plaintext → `ok <N decoded coefficients>`;
+//!   the GGSW variants on a GGSW of the scalar `i ↦ i` → `ok margin=<max over cells of log2(noise std) − bound>` w.r.t. the
+//!   scalar rotated by `want`.
 //! * `cbt be= a=`: `FheUintPreparedDebug::prepare`, per-cell noise: `ok <max log2 std per (row,col)>…`.
 use std::io::{BufRead, Write};
 use std::sync::Mutex;
 
 use poulpy_bin_fhe::bdd_arithmetic::{
-    Add, And, Cswap, FheUint, GLWEBlindRetrieval, GLWEBlindRetriever, GLWEBlindSelection, FheUintPrepared, FheUintPreparedDebug, Identity, Or, Sll, Slt, Sltu, Sra, Srl, Sub, Xor,
+    Add, And, Cswap, FheUint, GGSWBlindRotation, GLWEBlindRetrieval, GLWEBlindRetriever, GLWEBlindRotation, GLWEBlindSelection, FheUintPrepared, FheUintPreparedDebug, Identity, Or, Sll, Slt, Sltu, Sra, Srl, Sub, Xor,
     tests::test_suite::TestContext,
 };
 use poulpy_bin_fhe::blind_rotation::CGGI;
 use poulpy_core::{
-    EncryptionLayout, GGSWEncryptSk, LWEDecrypt,
-    layouts::{GGSW, GGSWInfos, GGSWPrepared, GGSWPreparedFactory, GLWEInfos, LWE, LWEInfos, LWELayout, LWEPlaintext},
+    EncryptionLayout, GGSWEncryptSk, GLWEDecrypt, GLWEEncryptSk, LWEDecrypt,
+    layouts::{
+        Dnum, Dsize, GGSW, GGSWInfos, GGSWLayout, GGSWPrepared, GGSWPreparedFactory, GLWE, GLWEInfos, GLWEPlaintext, LWE, LWEInfos, LWELayout,
+        LWEPlaintext, TorusPrecision,
+    },
 };
 use poulpy_cpu_avx::FFT64Avx;
 use poulpy_cpu_ref::FFT64Ref;
@@ -238,6 +247,107 @@ macro_rules! backend_impl {
                             let mut res: FheUint<Vec<u8>, u32> = FheUint::alloc_from_infos(&infos);
                             GLWEBlindSelection::<u32, BE>::glwe_blind_selection(&st.tc.module, &mut res, map, &idx_enc, rsh, bits, st.scratch.borrow());
                             format!("ok {}", dec(st, &res))
+                        }
+                    }
+                    "hist" => {
+                        let rsh = kvn(t, "rsh", 0) as usize;
+                        let idxword = kvn(t, "idxword", 0) as u32;
+                        let ggsw = st.tc.ggsw_infos();
+                        let e = EncryptionLayout::new_from_default_sigma(ggsw).unwrap();
+                        let mut idx_enc: FheUintPrepared<DeviceBuf<BE>, u32, BE> = FheUintPrepared::alloc_from_infos(&st.tc.module, &ggsw);
+                        idx_enc.encrypt_sk(&st.tc.module, idxword, &st.tc.sk_glwe, &e, &mut st.xe, &mut st.xa, st.scratch.borrow());
+                        let streams: Vec<Vec<u32>> = kvs(t, "streams")
+                            .unwrap_or("")
+                            .split('|')
+                            .map(|x| if x == "-" || x.is_empty() { vec![] } else { x.split(',').filter_map(|y| y.parse::<u64>().ok()).map(|y| y as u32).collect() })
+                            .collect();
+                        let modes: Vec<u64> = kvs(t, "modes").unwrap_or("").split(',').filter_map(|y| y.parse().ok()).collect();
+                        let infos = st.tc.glwe_infos();
+                        let mut retriever = GLWEBlindRetriever::alloc(&infos, kvn(t, "size", 1) as usize);
+                        let mut outs: Vec<String> = Vec::new();
+                        for (si, data) in streams.iter().enumerate() {
+                            let cts: Vec<FheUint<Vec<u8>, u32>> = data.iter().map(|w| enc(st, *w)).collect();
+                            let mut res: FheUint<Vec<u8>, u32> = FheUint::alloc_from_infos(&infos);
+                            if modes.get(si).copied().unwrap_or(0) == 1 {
+                                retriever.retrieve(&st.tc.module, &mut res, &cts, &idx_enc, rsh, st.scratch.borrow());
+                            } else {
+                                for ct in &cts {
+                                    retriever.add(&st.tc.module, ct, &idx_enc, rsh, st.scratch.borrow());
+                                }
+                                retriever.flush(&st.tc.module, &mut res, &idx_enc, rsh, st.scratch.borrow());
+                            }
+                            outs.push(dec(st, &res).to_string());
+                        }
+                        format!("ok {}", outs.join(","))
+                    }
+                    "brot" => {
+                        let kind = kvs(t, "kind").unwrap_or("glwe");
+                        let sign = kvn(t, "sign", 0) == 1;
+                        let (rsh, mask, lsh) = (kvn(t, "rsh", 0) as usize, kvn(t, "mask", 1) as usize, kvn(t, "lsh", 0) as usize);
+                        let idxword = kvn(t, "idxword", 0) as u32;
+                        let want: i64 = kvs(t, "want").and_then(|x| x.parse().ok()).unwrap_or(0);
+                        let module = &st.tc.module;
+                        let n = module.n();
+                        let glwe_infos = st.tc.glwe_infos();
+                        let ggsw_res_infos = GGSWLayout { n: glwe_infos.n, base2k: glwe_infos.base2k, k: TorusPrecision(39), rank: glwe_infos.rank, dnum: Dnum(2), dsize: Dsize(1) };
+                        let ggsw_k_infos = GGSWLayout { n: glwe_infos.n, base2k: glwe_infos.base2k, k: TorusPrecision(52), rank: glwe_infos.rank, dnum: Dnum(3), dsize: Dsize(1) };
+                        let ek = EncryptionLayout::new_from_default_sigma(ggsw_k_infos).unwrap();
+                        let mut k_enc: FheUintPrepared<DeviceBuf<BE>, u32, BE> = FheUintPrepared::alloc_from_infos(module, &ggsw_k_infos);
+                        k_enc.encrypt_sk(module, idxword, &st.tc.sk_glwe, &ek, &mut st.xe, &mut st.xa, st.scratch.borrow());
+                        if kind == "glwe" || kind == "glwe_assign" {
+                            let eg = EncryptionLayout::new_from_default_sigma(glwe_infos).unwrap();
+                            let vals: Vec<i64> = (0..n).map(|j| ((j * 7 + 3) % 13) as i64 - 6).collect();
+                            let mut pt: GLWEPlaintext<Vec<u8>> = GLWEPlaintext::alloc_from_infos(&glwe_infos);
+                            pt.encode_vec_i64(&vals, TorusPrecision(5));
+                            let mut ct: GLWE<Vec<u8>> = GLWE::alloc_from_infos(&glwe_infos);
+                            module.glwe_encrypt_sk(&mut ct, &pt, &st.tc.sk_glwe, &eg, &mut st.xe, &mut st.xa, st.scratch.borrow());
+                            let mut res: GLWE<Vec<u8>> = GLWE::alloc_from_infos(&glwe_infos);
+                            if kind == "glwe" {
+                                // garbage in the destination: it must be overwritten
+                                for x in res.data_mut().raw_mut().iter_mut() {
+                                    *x = 0x155;
+                                }
+                                module.glwe_blind_rotation(&mut res, &ct, &k_enc, sign, rsh, mask, lsh, st.scratch.borrow());
+                            } else {
+                                module.glwe_blind_rotation_assign(&mut ct, &k_enc, sign, rsh, mask, lsh, st.scratch.borrow());
+                                res = ct;
+                            }
+                            let mut pt2: GLWEPlaintext<Vec<u8>> = GLWEPlaintext::alloc_from_infos(&glwe_infos);
+                            module.glwe_decrypt(&res, &mut pt2, &st.tc.sk_glwe, st.scratch.borrow());
+                            let mut out = vec![0i64; n];
+                            pt2.decode_vec_i64(&mut out, TorusPrecision(5));
+                            format!("ok {}", out.iter().map(|x| x.to_string()).collect::<Vec<_>>().join(","))
+                        } else {
+                            let mut scalar: ScalarZnx<Vec<u8>> = ScalarZnx::alloc(n, 1);
+                            scalar.raw_mut().iter_mut().enumerate().for_each(|(i, x)| *x = i as i64);
+                            let mut res: GGSW<Vec<u8>> = GGSW::alloc_from_infos(&ggsw_res_infos);
+                            let er = EncryptionLayout::new_from_default_sigma(ggsw_res_infos).unwrap();
+                            match kind {
+                                "scalar" => GGSWBlindRotation::<u32, BE>::scalar_to_ggsw_blind_rotation(module, &mut res, &scalar, &k_enc, sign, rsh, mask, lsh, st.scratch.borrow()),
+                                "ggsw" => {
+                                    let mut a: GGSW<Vec<u8>> = GGSW::alloc_from_infos(&ggsw_res_infos);
+                                    module.ggsw_encrypt_sk(&mut a, &scalar, &st.tc.sk_glwe, &er, &mut st.xe, &mut st.xa, st.scratch.borrow());
+                                    GGSWBlindRotation::<u32, BE>::ggsw_blind_rotation(module, &mut res, &a, &k_enc, sign, rsh, mask, lsh, st.scratch.borrow());
+                                }
+                                _ => {
+                                    module.ggsw_encrypt_sk(&mut res, &scalar, &st.tc.sk_glwe, &er, &mut st.xe, &mut st.xa, st.scratch.borrow());
+                                    GGSWBlindRotation::<u32, BE>::ggsw_blind_rotation_assign(module, &mut res, &k_enc, sign, rsh, mask, lsh, st.scratch.borrow());
+                                }
+                            }
+                            use poulpy_hal::api::VecZnxRotateAssign;
+                            let mut scalar_want: ScalarZnx<Vec<u8>> = ScalarZnx::alloc(n, 1);
+                            scalar_want.raw_mut().copy_from_slice(scalar.raw());
+                            module.vec_znx_rotate_assign(want, &mut scalar_want.as_vec_znx_mut(), 0, st.scratch.borrow());
+                            let log_n = (usize::BITS - (n - 1).leading_zeros()) as f64;
+                            let mut margin = f64::NEG_INFINITY;
+                            for row in 0..res.dnum().as_usize() {
+                                for col in 0..res.rank().as_usize() + 1 {
+                                    let noise = res.noise(module, row, col, &scalar_want, &st.tc.sk_glwe, st.scratch.borrow()).std().log2();
+                                    let bound = -(ggsw_res_infos.size() as f64 * 13.0) + 1.678 + 5.0 + 0.5 * log_n + if col != 0 { 0.5 * log_n } else { 0.0 };
+                                    margin = margin.max(noise - bound);
+                                }
+                            }
+                            format!("ok margin={margin:.2}")
                         }
                     }
                     "cbt" => {
